@@ -796,28 +796,42 @@ def pPatternItem (acc : List (List Nat)) : P (List (List Nat)) := fun w => do
   let (p, r) ← pListMailbox w
   pure (if p = [] then acc else acc ++ [p], r)
 
+/-- list.go readListCmd: the optional selection options and the space after them -/
+def pListSel : P ListOpts := fun w => do
+  let (selO, r1) ← pListOpt pSelectOpt {} w
+  match selO with
+  | none => pure ({}, r1)
+  | some o => do
+    let (_, r) ← pSP r1
+    pure (o, r)
+
+/-- list.go readListCmd: one pattern, or a parenthesised non-empty list of patterns -/
+def pListPats : P (List (List Nat)) := fun w => do
+  let (patsO, r5) ← pListOpt pPatternItem [] w
+  match patsO with
+  | some ps => if ps = [] then .error .bad else pure (ps, r5)
+  | none => do
+    let (p, r) ← pListMailbox r5
+    pure (if p = [] then [] else [p], r)
+
+/-- list.go readListCmd: the optional `RETURN (…)` -/
+def pListRet (o1 : ListOpts) : P ListOpts := fun w =>
+  let (sp?, r7) := decSP w
+  if sp? then do
+    let (a, r) ← pAtom r7
+    if upper a ≠ str "RETURN" then .error .bad else
+    let (_, r) ← pSP r
+    pList pReturnOpt o1 r
+  else pure (o1, r7)
+
 /-- list.go readListCmd (after the command name) -/
 def pListCmd : P Cmd := fun w => do
   let (_, r0) ← pSP w
-  let (selO, r1) ← pListOpt pSelectOpt {} r0
-  let (o1, r2) ← (match selO with
-    | none => Except.ok (({} : ListOpts), r1)
-    | some o => do let (_, r) ← pSP r1; pure (o, r))
+  let (o1, r2) ← pListSel r0
   let (ref, r3) ← pMailbox r2
   let (_, r4) ← pSP r3
-  let (patsO, r5) ← pListOpt pPatternItem [] r4
-  let (pats, r6) ← (match patsO with
-    | some ps => if ps = [] then Except.error Err.bad else .ok (ps, r5)
-    | none => do
-      let (p, r) ← pListMailbox r5
-      pure (if p = [] then [] else [p], r))
-  let (sp?, r7) := decSP r6
-  let (o2, r8) ← (if sp? then do
-      let (a, r) ← pAtom r7
-      if upper a ≠ str "RETURN" then Except.error Err.bad else
-      let (_, r) ← pSP r
-      pList pReturnOpt o1 r
-    else Except.ok (o1, r7))
+  let (pats, r6) ← pListPats r4
+  let (o2, r8) ← pListRet o1 r6
   let (_, r9) ← pCRLF r8
   if o2.selRecursive && !o2.selSubscribed then .error .bad
   else pure (.list ref pats o2, r9)
